@@ -3,6 +3,7 @@ package drv
 import (
 	"encoding/json"
 	"fmt"
+	"math"
 	"reflect"
 	"sort"
 	"strings"
@@ -55,6 +56,13 @@ func perturb(v *idlm.LVal, r *core.Rand) (*idlm.LVal, string) {
 		out.Item = nil
 		return &out, "enum changed"
 	case idlm.LDouble:
+		if v.F == 0 {
+			out.F = math.Copysign(0, -1)
+			if math.Signbit(v.F) {
+				out.F = 0
+			}
+			return &out, "zero sign flipped (still the same number)"
+		}
 		out.F = v.F + 1
 		if out.F == v.F {
 			out.F = 0.5
@@ -223,6 +231,21 @@ func c14(c *core.Child, reg *Registry) {
 		}
 		if eq, werr := wireEqual(x, y); werr != "" || !eq {
 			bad("wire.ValuesAreEqual(x.ToWire(), y.ToWire()) is false for equal values "+werr, nil)
+		}
+		// the same two wire values compared repeatedly and in both directions:
+		// a comparison must not change its arguments
+		if wx, e1 := x.ToWire(); e1 == nil {
+			if wy, e2 := y.ToWire(); e2 == nil {
+				r1 := wire.ValuesAreEqual(wx, wy)
+				r2 := wire.ValuesAreEqual(wx, wy)
+				r3 := wire.ValuesAreEqual(wy, wx)
+				r4 := wire.ValuesAreEqual(wy, wy)
+				r5 := wire.ValuesAreEqual(wx, wx)
+				if !(r1 && r2 && r3 && r4 && r5) {
+					bad(fmt.Sprintf("wire equality of the same two (equal) wire values is not stable: first=%v again=%v swapped=%v y=y %v x=x %v", r1, r2, r3, r4, r5), nil)
+				}
+				c.Count("wire_reuse_checks", 1)
+			}
 		}
 		// nil receiver / argument
 		nilv := reflect.Zero(xrv.Type())
